@@ -576,7 +576,12 @@ def run_failed_init(c):
                 e_ = _issue(sim, h, "cleanup")
                 if e_ is not None:
                     out.fail("overlap-raised-%s:%s" % (type(e_).__name__, sid), repr(e_))
-                st_ = h.settle(allow_limbo=True)
+                try:
+                    h.settle(allow_limbo=True)
+                except Inconclusive:
+                    # (no quiescence: a run thread that nobody will ever wake up or end is still there)
+                    out.fail("run-thread-alive-after-cleanup", {"schedule": sid, "status": h.status()})
+                    break
                 alive = [w for w in h.workers_all() if w.is_alive()]
                 for w in alive:
                     w.join(2.0)
